@@ -9,7 +9,7 @@ T=$(dirname "$(rustc +nightly --print target-libdir)")/bin
 rm -rf "$W"; mkdir -p "$W"
 rsync -a --exclude target /verif/harness/ "$W/harness/"
 sed -i "s#target-dir = .*#target-dir = \"$W/target\"#" "$W/harness/.cargo/config.toml"
-(cd "$W/harness" && RUSTFLAGS="-C instrument-coverage" CARGO_NET_OFFLINE=true cargo +nightly build --offline >/dev/null 2>&1)
+(cd "$W/harness" && LLVM_PROFILE_FILE="$W/build_%p.profraw" RUSTFLAGS="-C instrument-coverage" CARGO_NET_OFFLINE=true cargo +nightly build --offline >/dev/null 2>&1)
 H="$W/target/debug/harness"
 cd "$W"   # profile files of child processes land here, never in /repo
 for st in bdd tbl lru ring wmc sdd up td ord cnf opt comp query ser ffi hash; do
